@@ -34,9 +34,11 @@
 //    lists; the per-node level is a std::atomic<unsigned> (IR: load/store atomic seq_cst) read by log objects
 //    without the lock; names and parent links are immutable after a node is published under the lock, and
 //    tree_formatter reads only those (without the lock, in log::object's constructor).
-//  * The bytes written to the ostream (level_stream::log: operator<<, flush), fcppt::log::out / temporary_output
-//    (ostringstream), default_level_streams / default_stream (std::clog), format::time_stamp, level_input/output:
-//    iostream and locale are not modelled.  The level streams of the harness refer to std::clog as an opaque object
+//  * (In this file level_stream::log is a counting stub; the REAL level_stream::log - composition of the stream's and the
+//    object's formatter, the text handed to the sink, the flush - is executed in C19_text.cpp.)
+//    What the ostream does with the characters, fcppt::log::out / temporary_output (ostringstream),
+//    default_level_streams / default_stream (std::clog), format::time_stamp, level_input/output: iostream and locale
+//    are not modelled.  The level streams of the harness refer to std::clog as an opaque object
 //    that is never written (natively nothing is written either because the stub counter decides, see emitted()).
 //  * Histories longer than k = 3 (k = 2 with every first step and k = 3 starting with a set in the quick tier; k = 3 with
 //    every first step and k = 4 of the form set;create;set;any in the thorough tier), location depth > 2, more than 2
@@ -53,143 +55,7 @@
 //@probe ^_ZN5fcppt9container4tree6objectINS_3log6detail17context_tree_nodeEE(6insert|9push_back)E verif_probe_mutate
 //@probe ^_ZN5fcppt9container4tree9pre_orderINS1_6objectINS_3log6detail17context_tree_nodeEEEE8iterator9incrementEv verif_probe_walk
 //@probe ^_ZN5fcppt3log6detail17context_tree_node5levelERKNS_8optional6objectINS0_5levelEEE verif_probe_setlevel
-#include "verif_api.h"
-#include <fcppt/make_ref.hpp>
-#include <fcppt/reference_impl.hpp>
-#include <fcppt/string.hpp>
-#include <fcppt/enum/array_impl.hpp>
-#include <fcppt/enum/array_init.hpp>
-#include <fcppt/log/context.hpp>
-#include <fcppt/log/context_reference.hpp>
-#include <fcppt/log/level.hpp>
-#include <fcppt/log/level_stream.hpp>
-#include <fcppt/log/level_stream_array.hpp>
-#include <fcppt/log/location.hpp>
-#include <fcppt/log/name.hpp>
-#include <fcppt/log/object.hpp>
-#include <fcppt/log/optional_level.hpp>
-#include <fcppt/log/parameters.hpp>
-#include <fcppt/log/parameters_no_function.hpp>
-#include <fcppt/log/detail/temporary_output.hpp>
-#include <fcppt/log/format/function.hpp>
-#include <fcppt/log/format/optional_function.hpp>
-#include <fcppt/optional/object_impl.hpp>
-#include <cstdint>
-#include <iostream>
-#include <string>
-#include <utility>
-// Every header the log sources include (list taken from libs/log/{src,impl/src}; a header missing here is still
-// correct, only slower): included BEFORE the noinline region below so that header templates stay inlinable.
-#include <fcppt/algorithm/fold.hpp>
-#include <fcppt/algorithm/fold_break.hpp>
-#include <fcppt/assert/unreachable.hpp>
-#include <fcppt/cast/enum_to_int.hpp>
-#include <fcppt/cast/size.hpp>
-#include <fcppt/const.hpp>
-#include <fcppt/container/tree/make_pre_order.hpp>
-#include <fcppt/container/tree/make_to_root.hpp>
-#include <fcppt/enum/array_init.hpp>
-#include <fcppt/enum/from_int.hpp>
-#include <fcppt/enum/from_string.hpp>
-#include <fcppt/enum/input.hpp>
-#include <fcppt/enum/output.hpp>
-#include <fcppt/enum/size.hpp>
-#include <fcppt/enum/to_string.hpp>
-#include <fcppt/enum/to_string_case.hpp>
-#include <fcppt/enum/to_string_impl_fwd.hpp>
-#include <fcppt/from_std_string.hpp>
-#include <fcppt/identity.hpp>
-#include <fcppt/io/cerr.hpp>
-#include <fcppt/io/clog.hpp>
-#include <fcppt/io/istream_fwd.hpp>
-#include <fcppt/io/ostream_fwd.hpp>
-#include <fcppt/io/ostringstream.hpp>
-#include <fcppt/log/const_level_stream_array_reference.hpp>
-#include <fcppt/log/context.hpp>
-#include <fcppt/log/context_reference.hpp>
-#include <fcppt/log/default_level_streams.hpp>
-#include <fcppt/log/default_stream.hpp>
-#include <fcppt/log/detail/active_level_int.hpp>
-#include <fcppt/log/detail/context_tree.hpp>
-#include <fcppt/log/detail/context_tree_node.hpp>
-#include <fcppt/log/detail/output_helper.hpp>
-#include <fcppt/log/detail/temporary_output.hpp>
-#include <fcppt/log/detail/temporary_output_fwd.hpp>
-#include <fcppt/log/format/chain.hpp>
-#include <fcppt/log/format/default_level.hpp>
-#include <fcppt/log/format/function.hpp>
-#include <fcppt/log/format/inserter.hpp>
-#include <fcppt/log/format/optional_function.hpp>
-#include <fcppt/log/format/prefix.hpp>
-#include <fcppt/log/format/prefix_string.hpp>
-#include <fcppt/log/format/suffix_string.hpp>
-#include <fcppt/log/format/time_stamp.hpp>
-#include <fcppt/log/impl/const_optional_context_tree_ref.hpp>
-#include <fcppt/log/impl/convert_level.hpp>
-#include <fcppt/log/impl/find_child.hpp>
-#include <fcppt/log/impl/find_child_const.hpp>
-#include <fcppt/log/impl/find_child_tpl.hpp>
-#include <fcppt/log/impl/find_or_create_child.hpp>
-#include <fcppt/log/impl/optional_context_tree_ref.hpp>
-#include <fcppt/log/impl/tree_formatter.hpp>
-#include <fcppt/log/level.hpp>
-#include <fcppt/log/level_from_string.hpp>
-#include <fcppt/log/level_input.hpp>
-#include <fcppt/log/level_output.hpp>
-#include <fcppt/log/level_stream.hpp>
-#include <fcppt/log/level_stream_array.hpp>
-#include <fcppt/log/level_to_string.hpp>
-#include <fcppt/log/level_to_string_impl.hpp>
-#include <fcppt/log/location.hpp>
-#include <fcppt/log/location_fwd.hpp>
-#include <fcppt/log/name.hpp>
-#include <fcppt/log/name_fwd.hpp>
-#include <fcppt/log/object.hpp>
-#include <fcppt/log/optional_level.hpp>
-#include <fcppt/log/out.hpp>
-#include <fcppt/log/parameters.hpp>
-#include <fcppt/log/parameters_no_function.hpp>
-#include <fcppt/loop.hpp>
-#include <fcppt/make_cref.hpp>
-#include <fcppt/make_ref.hpp>
-#include <fcppt/make_unique_ptr.hpp>
-#include <fcppt/nonmovable.hpp>
-#include <fcppt/optional/bind.hpp>
-#include <fcppt/optional/combine.hpp>
-#include <fcppt/optional/from.hpp>
-#include <fcppt/optional/maybe.hpp>
-#include <fcppt/reference_impl.hpp>
-#include <fcppt/reference_to_const.hpp>
-#include <fcppt/string.hpp>
-#include <fcppt/string_view.hpp>
-#include <fcppt/text.hpp>
-#include <fcppt/time/localtime.hpp>
-#include <fcppt/time/output_tm.hpp>
-#include <fcppt/time/std_time.hpp>
-#include <fcppt/to_std_string.hpp>
-#include <fcppt/unique_ptr_impl.hpp>
-#include <mutex>
-#include <utility>
-// The library's own .cpp functions are compiled noinline so that the //@probe hooks see every call
-// (g++ ignores the pragma; the native build needs no hooks).
-#if defined(__clang__)
-#pragma clang attribute push(__attribute__((noinline)), apply_to = function)
-#endif
-#include "unity_log.hpp"
-#if defined(__clang__)
-#pragma clang attribute pop
-#endif
-// the few libs/core sources the log sources link against (libs/core needs a generated private_config.hpp as a whole)
-#include "libs/core/src/exception.cpp"
-#include "libs/core/src/from_std_string.cpp"
-#include "libs/core/src/to_std_string.cpp"
-#include "libs/core/src/insert_extract_locale.cpp"
-#include "libs/core/src/string_conv_locale.cpp"
-#include "libs/core/src/assert/information.cpp"
-#include "libs/core/src/io/cerr.cpp"
-#include "libs/core/src/io/clog.cpp"
-#include "libs/core/src/time/localtime.cpp"
-#include "libs/core/src/time/std_time.cpp"
+#include "C19_unity.hpp"
 
 // ------------------------------------------------------------------ lock model and hooks
 // Executor: models.py keeps a held-flag per mutex (verif_locks_held), the //@probe lines call the hooks.
@@ -529,6 +395,31 @@ VERIF_HARNESS(h_objects)
   verif_reach("objects-end");
 }
 
+// pinned history: set({a}, w); set({a,b}, v); set({a}, w) - the second set on {a} has the level {a} already has, and
+// must still rewrite {a,b} (and the log object living there) to w.  obj = 1: a log object at {a,b} exists from the start.
+VERIF_HARNESS(h_reset_same_level)
+{
+  setup();
+  unsigned const w = fresh_level("w"), v = fresh_level("v");
+  bool const with_object = verif_param("obj") != 0;
+  do_set(1, w);
+  if (with_object) do_create(4, 0);
+  do_set(4, v);
+  check_get(4);
+  check_get(1);
+  do_set(1, w);
+  {
+    lg::context const &cc = *ctx;
+    verif_assert(to_int(cc.get(location_of(4))) == w, "set(a,w); set(a/b,v); set(a,w): a/b has level w again");
+    verif_assert(to_int(cc.get(location_of(1))) == w, "set(a,w); set(a/b,v); set(a,w): a has level w");
+    if (with_object) verif_assert(to_int(objs[4]->level()) == w, "... and so does the log object at a/b");
+  }
+  final_checks(false);
+  observe();
+  teardown();
+  verif_reach("reset-end");
+}
+
 // operation codes: 0 set, 1 get, 2 create object; locations: 0 {} 1 {a} 2 {b} 3 {a,a} 4 {a,b} 5 {b,a} 6 {b,b}
 //@harness h_hist param k=1 param op0=9 param loc0=9 tier=quick loop=40 leak=1
 //@harness h_hist param k=2 param op0=0..2 param loc0=9 tier=quick loop=40 leak=1
@@ -538,3 +429,7 @@ VERIF_HARNESS(h_objects)
 //@harness h_hist param k=3 param op0=1 param loc0=0,4 tier=thorough loop=40 leak=1 paths=100000 wall=3000
 //@harness h_hist param k=3 param op0=2 param loc0=1..6 tier=thorough loop=40 leak=1 paths=100000 wall=3000
 //@harness h_hist4 param loc0=0,1,4 tier=thorough loop=40 leak=1 paths=200000 wall=3000
+//@harness h_reset_same_level param obj=0..1 tier=quick loop=40 leak=1
+// objects through the three constructors with sets in between, emission and formatter() text (this line was lost when the
+// thorough list was resized; restored)
+//@harness h_objects param how=0..1 param l0=0..6 tier=quick loop=40 leak=1
